@@ -232,6 +232,74 @@ pub fn run(ctx: &mut Ctx) {
                 for pth in [&epath, &tpath, &t2path] {
                     let _ = std::fs::remove_file(pth);
                 }
+                // ---- (c') the Gambit features the exact comparison above cannot carry: payoffs on
+                // interior nodes, outcomes attached by number only (payoffs stated at another
+                // node), a constant sum different from zero. The harness knows the game such a
+                // file means (its own semantic tree, net of half the constant) and solves that with
+                // the library; the binary must print the same strategies within measured rounding.
+                let mut fopts = EfgOpts::random(rng, true);
+                fopts.interior = true;
+                fopts.share_outcomes = true;
+                fopts.by_reference = rng.chance(0.8);
+                fopts.naming = *rng.pick(&[Naming::Named, Naming::Mixed, Naming::Unnamed]);
+                let efg2 = files::write_efg(rng, &tree, &fopts);
+                if let Ok(prep2) = Prepared::new(&efg2.tree) {
+                    let e2path = cli::write_game_file(&scratch, &format!("{}-f", stem), &efg2, None);
+                    let (dname2, spec2) = *rng.pick(&PRESETS);
+                    let t2 = *rng.pick(&[1u64, 5, 30]);
+                    let args2: Vec<String> = vec!["-m".into(), "full".into(), "-d".into(), dname2.into(), "-t".into(), t2.to_string(), "-p".into(), "1".into(), "-i".into(), e2path.clone()];
+                    ctx.mark(idx, "efg-features-vs-library");
+                    let got = run_cli(&cli_path, &args2, None, &prep2.flat);
+                    let _ = std::fs::remove_file(&e2path);
+                    match got {
+                        Err((sig, _)) if sig == "watchdog" => ctx.inconclusive("cli-watchdog"),
+                        Err((sig, msg)) => {
+                            ctx.violation(idx, &format!("C16:gambit-features:{}", sig), &format!("cfr {}: {} (features {:?}; {})", args2.join(" "), msg, efg2.features, desc), json!({"efg_file": efg2.text, "args": args2}));
+                            return;
+                        }
+                        Ok(p2) => {
+                            let cfg2 = Cfg { method: SolveMethod::Full, iters: t2, max_reg: 0.0, threads: 1, params: spec2 };
+                            let hook = Some(Config { flags: cfr::verif::LOG_STATE | cfr::verif::LOG_PASS, sampling: Sampling::Production, jitter_seed: 0 });
+                            if let Outcome::Ok(lib2) = solve::run(&prep2, &cfg2, hook) {
+                                let d = max_diff(&p2.profile, &lib2.profile);
+                                let mut fine = d <= 1e-9;
+                                if !fine {
+                                    match solve::step_check(&prep2, &cfg2, &lib2, false) {
+                                        Ok(st) if st.min_margin >= 1e-9 => {
+                                            // payoffs reach the solver as (sum of interior payoffs + terminal payoff - half constant):
+                                            // rounding relative to the largest magnitude on the path
+                                            let mag = efg2.totals.iter().map(|t| t.0.abs().max(t.1.abs())).fold(0.0, f64::max) + efg2.constant.abs() + 16.0;
+                                            let payoff_cond = mag / prep2.flat.payoff_range().max(1e-300);
+                                            let cond = solve::cond_by_flat_infoset(&prep2, &st);
+                                            if solve::profiles_differ(&p2.profile, &lib2.profile, &cond, payoff_cond, st.min_margin).is_none() {
+                                                fine = true;
+                                                ctx.count("gambit-features-equal-only-within-conditioning-aware-tolerance", 1);
+                                            }
+                                        }
+                                        _ => {
+                                            ctx.inconclusive("gambit-features-differ-but-the-library-trace-passed-within-1e-9-of-a-regret-matching-discontinuity");
+                                            return;
+                                        }
+                                    }
+                                }
+                                if fine {
+                                    for f in &efg2.features {
+                                        ctx.count(&format!("gambit-feature-vs-library:{}", f), 1);
+                                    }
+                                    ctx.ok(mix(crate::rng::hash_str(&efg2.text) ^ crate::rng::hash_str(&args2[..args2.len() - 1].join(" "))), prep2.flat.num_decision_infosets() > 0);
+                                } else {
+                                    ctx.violation(
+                                        idx,
+                                        "C16:gambit-features-differ-from-library",
+                                        &format!("cfr {} on a Gambit file with features {:?} prints strategies that differ by {} from Game::solve(Full, {}, 0, 1, {}) on the game the file describes ({})", args2.join(" "), efg2.features, d, t2, spec2.name(), desc),
+                                        json!({"efg_file": efg2.text, "args": args2, "library": lib2.profile, "printed": p2.profile}),
+                                    );
+                                    return;
+                                }
+                            }
+                        }
+                    }
+                }
             }
             // ---- (d) behavioural signatures of the sampled methods (constructed games) ----
             3 => {
@@ -359,7 +427,7 @@ pub fn run(ctx: &mut Ctx) {
         let _ = gen::METHODS;
     });
     ctx.finish(crate::report::extra(
-        "cases (five kinds, rotating): (a) `-m full` with every -d preset (and the default), -t in {1,2,3,10,50,200,0=unlimited with a reachable -r}, -r, -p 1: printed strategies must equal Game::solve(Full, T, r, 1, documented preset) called by the harness on the same tree within 1e-9 (bit-for-bit agreement is counted, not demanded: two separately compiled binaries may differ in the last place of powf), (a') the same with -p {2,4,0}; a larger difference is inconclusive only if the library trace passed within 1e-9 of a regret-matching discontinuity; (b)+(c) the same game and options through nine routes {stdin auto, stdin explicit, file explicit, .txt auto, -o file, Gambit file, Gambit explicit, Gambit .dat auto, Gambit stdin auto}: parsed results identical to `-i game.json` (bitwise where both encodings are exact), -o leaves stdout empty; (d) signatures of sampled methods on constructed games (a random 3-4 x 3-4 matrix game, or a chance move over two of them; -d vanilla -t 20): -m full repeatable, -m sampled equals -m full bit for bit on the chance-free game, and where the full solution is properly mixed -m sampled (with chance) and -m external never print exactly the -m full result in two repetitions; (e) clip: with S the library solution and S' its truncation (by the C18 specification) the printed profile must be one of them, S' if its O1 regret is lower, S if higher or equal (within 1e-9 x scale: don't-care). distinct = hash(file, options/route); non-trivial = game has a decision infoset.",
+        "cases (five kinds, rotating): (a) `-m full` with every -d preset (and the default), -t in {1,2,3,10,50,200,0=unlimited with a reachable -r}, -r, -p 1: printed strategies must equal Game::solve(Full, T, r, 1, documented preset) called by the harness on the same tree within 1e-9 (bit-for-bit agreement is counted, not demanded: two separately compiled binaries may differ in the last place of powf), (a') the same with -p {2,4,0}; a larger difference is inconclusive only if the library trace passed within 1e-9 of a regret-matching discontinuity; (b)+(c) the same game and options through nine routes {stdin auto, stdin explicit, file explicit, .txt auto, -o file, Gambit file, Gambit explicit, Gambit .dat auto, Gambit stdin auto}: parsed results identical to `-i game.json` (bitwise where both encodings are exact), -o leaves stdout empty; (c') a Gambit encoding using payoffs on interior nodes, shared outcomes, outcomes attached by number only (payoffs stated at another node), non-zero constant sums and unnamed/mixed infoset names must print the strategies Game::solve returns on the game the file describes (harness's own semantic tree), within 1e-9 or the tolerance measured from the library trace; (d) signatures of sampled methods on constructed games (a random 3-4 x 3-4 matrix game, or a chance move over two of them; -d vanilla -t 20): -m full repeatable, -m sampled equals -m full bit for bit on the chance-free game, and where the full solution is properly mixed -m sampled (with chance) and -m external never print exactly the -m full result in two repetitions; (e) clip: with S the library solution and S' its truncation (by the C18 specification) the printed profile must be one of them, S' if its O1 regret is lower, S if higher or equal (within 1e-9 x scale: don't-care). distinct = hash(file, options/route); non-trivial = game has a decision infoset.",
         &["the harness library build has the hooks compiled in but inactive; agreement with the hook-free binary within 1e-9 on every -m full run is itself evidence that the hooks do not change what is computed", "Gambit rational probabilities are only exact for power-of-two denominators; other files are compared within rounding"],
     ));
 }
